@@ -67,8 +67,8 @@ func mkBool(b bool) *Expr {
 	}
 	return mk("const", types.Typ[types.Bool], "", 0)
 }
-func mkNil(typ types.Type) *Expr   { return mk("nil", typ, "", 0) }
-func mkStr(s string) *Expr         { return mk("str", types.Typ[types.String], fmt.Sprintf("%q", s), 0) }
+func mkNil(typ types.Type) *Expr { return mk("nil", typ, "", 0) }
+func mkStr(s string) *Expr       { return mk("str", types.Typ[types.String], fmt.Sprintf("%q", s), 0) }
 func mkLeaf(kind, name string, typ types.Type) *Expr {
 	// kind: "param", "val", "phi", "ld", "alloc", "global", "fn", "mphi"
 	return mk(kind, typ, name+"#", 0)
